@@ -30,6 +30,7 @@ import (
 	"regexp"
 	"sort"
 	"strings"
+	"sync"
 	"sync/atomic"
 	"time"
 
@@ -395,14 +396,29 @@ type gen struct {
 	seenD  map[uint64]struct{}
 	flush  func() // compares the queued items with the model and empties the queue
 	queued int
-	viol   []vh.Case // added to the report after the disagreements (the report keeps the first 200 cases)
+	nviol  int
+	knownC map[string]int // known-finding cases per key (at most 20 each go into the report)
+	viol   []vh.Case      // added to the report after the disagreements (the report keeps the first 200 cases)
 }
 
 func (g *gen) violation(key, op, detail string) {
-	if len(g.viol) < 200 {
+	if g.nviol < 150 {
+		g.nviol++
 		g.viol = append(g.viol, vh.Case{Kind: "violation", Key: key, Op: op, Detail: detail})
 	}
 	g.rep.Count("violation:" + key)
+}
+
+// addKnown records a violation that matches a listed known finding (a few per key; all are counted).
+func (g *gen) addKnown(f vh.Finding, op string) {
+	g.rep.Count("known:" + f.Key)
+	if g.knownC == nil {
+		g.knownC = map[string]int{}
+	}
+	g.knownC[f.Key]++
+	if g.knownC[f.Key] <= 20 {
+		g.viol = append(g.viol, vh.Case{Kind: "known", Key: f.Key, Op: op, Detail: f.What})
+	}
 }
 
 // record the oracle findings of one run; known-finding predicates are matched here.
@@ -410,8 +426,7 @@ func (g *gen) judge(op string, res result) {
 	for _, b := range res.bad {
 		if strings.Contains(b, "langString-without-tag") {
 			if f, ok := g.known["explicit-langstring-datatype"]; ok {
-				g.rep.Add(vh.Case{Kind: "known", Key: f.Key, Op: op, Detail: f.What})
-				g.rep.Count("known:" + f.Key)
+				g.addKnown(f, op)
 				continue
 			}
 		}
@@ -488,8 +503,7 @@ func (g *gen) c07nt(kind string, b []byte) {
 			// known-finding class `bnode-label-contains-colon` (token layer, D32): ':' is a PN_CHARS_U rune for the
 			// N-Triples / N-Quads decoders only
 			if f, ok := g.known["bnode-label-contains-colon"]; ok && pkg != "nq" && labelWithColon.Match(b) {
-				g.rep.Add(vh.Case{Kind: "known", Key: f.Key, Op: "nt through " + pkg + " " + vh.X(b), Detail: f.What})
-				g.rep.Count("known:" + f.Key)
+				g.addKnown(f, "nt through "+pkg+" "+vh.X(b))
 				continue
 			}
 			g.violation("C07", "N-Triples document through "+pkg+": "+vh.X(b), fmt.Sprintf("ntriples: %s, %s: %s", nt.wire, pkg, o.wire))
@@ -540,8 +554,7 @@ func (g *gen) c15cuts(pkg, base string, doc []byte, spans []span, cuts []int) {
 			// name inside a collection; the shortened item and the eagerly emitted rdf:rest link after it both differ
 			if f, ok := g.known["cut-after-dot-in-collection"]; ok && doc[k-1] == '.' && n >= 2 && isPrefixOf(p.stmts[:n-2], full.stmts) &&
 				strings.Contains(p.stmts[n-1], ","+vh.TermWire(rdf.IRI("http://www.w3.org/1999/02/22-rdf-syntax-ns#rest"), nil)+",") {
-				g.rep.Add(vh.Case{Kind: "known", Key: f.Key, Op: op, Detail: f.What})
-				g.rep.Count("known:" + f.Key)
+				g.addKnown(f, op)
 			} else {
 				g.violation("C15", op, fmt.Sprintf("statements of the prefix are not a prefix of the document's statements: %s vs %s", p.wire, full.wire))
 			}
@@ -642,6 +655,9 @@ func (g *gen) w3c(cutsPerFile int) {
 // cutsOf: every proper prefix (n < 0) or n random cut points.
 func (g *gen) cutsOf(pkg, base string, doc []byte, spans []span, n int) {
 	var cuts []int
+	if n < 0 && len(doc) > 700 { // long documents: 150 random prefixes instead of every prefix
+		n = 150
+	}
 	if n < 0 || n >= len(doc) {
 		for k := 1; k < len(doc); k++ {
 			cuts = append(cuts, k)
@@ -1010,6 +1026,10 @@ func (d *docGen) baseIRI() string {
 	if i := strings.IndexByte(s, '#'); i >= 0 && d.r.Chance(90) {
 		s = s[:i]
 	}
+	// an absolute base with an empty path is outside the safe fragment too (no "/" inserted on merge)
+	if strings.Contains(s, "://") && strings.Count(s, "/") == 2 && !strings.ContainsAny(s, "?#") && d.r.Chance(90) {
+		s += "/"
+	}
 	return s
 }
 
@@ -1226,6 +1246,46 @@ func shrinkLine(line string) string {
 	return fmt.Sprintf("ttld.dec %s %s %s %s\n      doc=%q base=%q\n      go=%s\n      model=%s", f[1], f[2], baseTok(base), vh.X(doc), doc, base, gw, mw)
 }
 
+// runDriver splits a batch over several driver processes by size (the model is the slow side on long documents).
+func runDriver(lines []string) ([]string, error) {
+	workers := 8
+	if len(lines) < 64 {
+		workers = 1
+	}
+	total := 0
+	for _, l := range lines {
+		total += len(l) + 1
+	}
+	out := make([]string, len(lines))
+	var wg sync.WaitGroup
+	var mu sync.Mutex
+	var firstErr error
+	start, acc := 0, 0
+	for i, l := range lines {
+		acc += len(l) + 1
+		if acc >= total/workers+1 || i == len(lines)-1 {
+			a, b := start, i+1
+			start, acc = b, 0
+			wg.Add(1)
+			go func() {
+				defer wg.Done()
+				res, err := vh.Driver{Path: *driver}.Run(lines[a:b])
+				if err != nil {
+					mu.Lock()
+					if firstErr == nil {
+						firstErr = err
+					}
+					mu.Unlock()
+					return
+				}
+				copy(out[a:b], res)
+			}()
+		}
+	}
+	wg.Wait()
+	return out, firstErr
+}
+
 // ---------------------------------------------------------------- main
 
 func splitWire(w string) ([]string, string) {
@@ -1266,7 +1326,7 @@ func main() {
 		for i, it := range g.items {
 			lines[i] = it.line
 		}
-		res, err := vh.Driver{Path: *driver}.RunParallel(lines)
+		res, err := runDriver(lines)
 		if err != nil {
 			fmt.Fprintln(os.Stderr, err)
 			os.Exit(2)
@@ -1354,8 +1414,8 @@ func main() {
 		}
 		n, cuts, w3cuts := 2500**scale, 8, 4
 		if *tier == "thorough" {
-			n, cuts, w3cuts = 5000**scale, -1, -1
-			rep.Exhaustive = append(rep.Exhaustive, "every proper prefix of every generated document and of every W3C Turtle/TriG file")
+			n, cuts, w3cuts = 20000**scale, -1, -1
+			rep.Exhaustive = append(rep.Exhaustive, "every proper prefix of every generated document and of every W3C Turtle/TriG file of at most 700 bytes (150 random prefixes of the larger ones)")
 		} else {
 			cuts = 64 / 8
 		}
@@ -1370,11 +1430,18 @@ func main() {
 	}
 
 	finish := func() {
+		if len(disagreements) > 40 {
+			disagreements = disagreements[:40]
+		}
 		for _, c := range disagreements {
 			rep.Add(c)
 		}
-		for _, c := range g.viol {
-			rep.Add(c)
+		for _, kind := range []string{"violation", "known"} {
+			for _, c := range g.viol {
+				if c.Kind == kind {
+					rep.Add(c)
+				}
+			}
 		}
 		if err := rep.Write(*out); err != nil {
 			fmt.Fprintln(os.Stderr, err)
